@@ -2,7 +2,8 @@
    Call-level theorems for EVERY shape (any kind, nesting, size, arrangement, Poisonable wrapping), mode and
    hold table of other threads, in fault-free worlds. (The statement over whole histories, mon_C04 on the
    model, is checked on every generated scenario and is the next proof obligation: see DESIGN.md.) *)
-From HL Require Import Base Model Shape Algo Api OpsLemmas Lemmas ShapeLemmas ApiLemmas QuietLemmas Check Monitors Pf_Calls Pf_Hist Pf_Hist4.
+From HL Require Import Base Model Shape Algo Api Conc OpsLemmas Lemmas ShapeLemmas ApiLemmas QuietLemmas Check Monitors Pf_Calls Pf_Hist Pf_Hist4.
+From HL Require Wp WpAlgo WpMain.
 
 (* every container / wrapper / collection impl of get_ptrs enumerates each declared leaf exactly as declared *)
 Theorem C04_leaves_get_ptrs : forall am s, Permutation (rsleaves (get_ptrs am s)) (kleaves s).
@@ -84,8 +85,22 @@ Example C04_every_history_nonvacuous :
   map co_ret (model_obs ex_hist4) = [RB true; ROk; RB true; RWouldBlock; ROk; RWouldBlock; ROk; RPanicked; ROk; ROk; ROk].
 Proof. vm_compute. repeat split. Qed.
 
+
+(* interleaved model with pauses at call boundaries, every schedule: a guard acquisition (lock, read and their try variants) that is about to
+   return a guard holds exactly the leaves of the collection — each as often as it is a leaf — in the requested mode *)
+Theorem C04_every_schedule_guard_holds_exactly :
+  forall b sched t c m f k v s0, WpMain.wfB b = true ->
+  let sc := bs_sc b in
+  let s := fst (run_sched_g false false true (bs_wp b) (sc_env sc) (sc_nlocks sc) (binit b) sched) in
+  let th := get_thr (b_thr s) t in
+  th_over th = false -> th_cur th = Some (AAcquire c m f, Op bpause_op k) -> k (VBool false) = Ret v ->
+  (f = FGuard \/ f = FTry) -> v <> VNat 1 -> coll (sc_env sc) c = Some s0 ->
+  exists H K, Wp.agree t (b_w s) H K /\ Permutation H (WpAlgo.holds_of m (gleaves (gitems s0))).
+Proof. exact WpMain.every_schedule_guard_holds_exactly. Qed.
+
 Print Assumptions C04_leaves_get_ptrs.
 Print Assumptions C04_lock_all_or_wait.
 Print Assumptions C04_try_all_or_nothing.
 Print Assumptions C04_scoped_call.
 Print Assumptions C04_every_history.
+Print Assumptions C04_every_schedule_guard_holds_exactly.
